@@ -29,6 +29,9 @@ type Op struct {
 	K string `json:"k"`
 	P int    `json:"p"`
 	Q int    `json:"q"`
+	// S: the op addresses the paths of the case's ignore scenes (scenePaths)
+	// instead of the fixed pool; without a scene it is an ordinary op.
+	S bool `json:"s,omitempty"`
 }
 
 // Case is a repository configuration plus an operation list; the status
@@ -39,7 +42,344 @@ type Case struct {
 	AutoCRLF string `json:"autocrlf"` // "" (unset) | true | input | false
 	Base     []Base `json:"base"`     // files created, `git add -A`ed and (unless NoCommit) committed first
 	NoCommit bool   `json:"nocommit"`
-	Ops      []Op   `json:"ops"`
+	// Scenes are built (and compared) after the base commit and before the ops:
+	// directories excluded by an ignore rule that hold tracked and untracked
+	// files, nested ignore files and ancestor negations. Optional: old replay
+	// files have none.
+	Scenes []Scene `json:"scenes,omitempty"`
+	Ops    []Op    `json:"ops"`
+}
+
+// Scene describes one directory D (scDirs[Dir]) and the ignore rules around
+// it. Every index is taken modulo its pool.
+type Scene struct {
+	Dir  int `json:"dir"`
+	Rule int `json:"rule"` // scRule: how D (or only its content) is excluded
+	// Tracked: files below D (scFiles) that are in the index. How: 0 committed
+	// before the rule exists, 1 `git add -f` after the rule (staged), 2 add -f and
+	// commit, 3 staged before the rule exists.
+	Tracked   []int `json:"tracked,omitempty"`
+	How       int   `json:"how"`
+	Untracked []int `json:"untracked,omitempty"` // files below D written last, never added
+	// nested ignore file: 0 none, 1 D/.gitignore, 2 D/sub/.gitignore
+	NestedAt      int   `json:"nestedAt,omitempty"`
+	Nested        []int `json:"nested,omitempty"` // scNested patterns
+	NestedTracked bool  `json:"nestedTracked,omitempty"`
+	// ancestor negations (scNeg), in the ignore file that holds the rule (NegFile 0)
+	// or in the root .gitignore (NegFile 1); before or after the rule
+	Negs     []int `json:"negs,omitempty"`
+	NegFirst bool  `json:"negFirst,omitempty"`
+	NegFile  int   `json:"negFile,omitempty"`
+	Outside  []int `json:"outside,omitempty"` // untracked files outside D (scOutside)
+}
+
+var scDirs = []string{"build", "out.d", "gen/build", "d", "d/e", "tmp.d/cache", "gen/out.d"}
+
+// files below D: siblings, a sub-directory and a deeper one
+var scFiles = []string{"keep.txt", "NOTES.md", "obj.o", "sub/README.md", "sub/x.txt", "sub/deep/y.md", "a", ".hid", "sub/deep/keep.txt"}
+
+var scOutside = []string{"new.txt", "README.md", "keep.txt", "gen/other.md", "zz/keep.txt"}
+
+var scNested = []string{"!keep.txt\n", "!*.md\n", "*.o\n", "*\n", "!*\n", "x.txt\n", "!README.md\n", "# c\n", "!sub/\n", "/a\n", "deep/\n", "!*.txt\n"}
+
+const nScRules = 10
+
+func scSplit(D string) (parent, base string) {
+	if i := strings.LastIndexByte(D, '/'); i >= 0 {
+		return D[:i], D[i+1:]
+	}
+	return "", D
+}
+
+// scRule returns the ignore file (relative to the worktree) and the pattern
+// line that rule k writes for directory D. Rules 0-4, 7-9 exclude D itself (or
+// an ancestor of it): nothing below it can be re-included. Rules 5 and 6
+// exclude only what is in D: a later negation does re-include a direct child.
+func scRule(k int, D string) (file, line string) {
+	parent, base := scSplit(D)
+	top := D
+	if i := strings.IndexByte(D, '/'); i >= 0 {
+		top = D[:i]
+	}
+	glob := base[:1] + "*"
+	if len(base) > 2 {
+		glob = base[:2] + "*"
+	}
+	if i := strings.LastIndexByte(base, '.'); i > 0 {
+		glob = "*" + base[i:]
+	}
+	switch k % nScRules {
+	case 0:
+		return ".gitignore", base + "/"
+	case 1:
+		return ".gitignore", base
+	case 2:
+		return ".gitignore", "/" + D + "/"
+	case 3:
+		return ".gitignore", glob + "/"
+	case 4:
+		return ".gitignore", "**/" + base + "/"
+	case 5:
+		return ".gitignore", D + "/*"
+	case 6:
+		return ".gitignore", D + "/**"
+	case 7:
+		if parent == "" {
+			return ".gitignore", glob
+		}
+		return parent + "/.gitignore", base + "/"
+	case 8:
+		return ".gitignore", top + "/"
+	default:
+		if parent == "" {
+			return ".gitignore", "/" + base
+		}
+		return parent + "/.gitignore", "/" + base
+	}
+}
+
+const nScNegs = 12
+
+// scNeg returns negation line k for directory D as written in ignore file f
+// (patterns with a slash are relative to the directory of the file).
+func scNeg(k int, D, f string) string {
+	_, base := scSplit(D)
+	rel := D
+	if dir := filepath.Dir(f); dir != "." && strings.HasPrefix(D, dir+"/") {
+		rel = D[len(dir)+1:]
+	}
+	switch k % nScNegs {
+	case 0:
+		return "!" + rel + "/keep.txt"
+	case 1:
+		return "!*.md"
+	case 2:
+		return "!keep.txt"
+	case 3:
+		return "!" + rel + "/sub/"
+	case 4:
+		return "!/" + rel + "/NOTES.md"
+	case 5:
+		return "!**/README.md"
+	case 6:
+		return "!" + base + "/"
+	case 7:
+		return "!" + rel + "/**"
+	case 8:
+		return "!*.txt"
+	case 9:
+		return "!" + rel + "/*"
+	case 10:
+		return "!" + rel + "/sub/deep/y.md"
+	default:
+		return "!*"
+	}
+}
+
+// scNegNames reports whether negation k, read as a flat pattern, names file
+// rel (relative to D). Used for labels only.
+func scNegNames(k int, rel string) bool {
+	b := rel[strings.LastIndexByte(rel, '/')+1:]
+	switch k % nScNegs {
+	case 0:
+		return rel == "keep.txt"
+	case 1:
+		return strings.HasSuffix(b, ".md")
+	case 2:
+		return b == "keep.txt"
+	case 3:
+		return strings.HasPrefix(rel, "sub/")
+	case 4:
+		return rel == "NOTES.md"
+	case 5:
+		return b == "README.md"
+	case 6:
+		return false
+	case 7:
+		return true
+	case 8:
+		return strings.HasSuffix(b, ".txt")
+	case 9:
+		return !strings.Contains(rel, "/")
+	case 10:
+		return rel == "sub/deep/y.md"
+	default:
+		return true
+	}
+}
+
+// scenePaths lists what an op with S set can address.
+func scenePaths(c Case) []string {
+	var out []string
+	for _, sc := range c.Scenes {
+		D := scDirs[sc.Dir%len(scDirs)]
+		for _, f := range scFiles {
+			out = append(out, D+"/"+f)
+		}
+		out = append(out, D, D+"/sub")
+	}
+	return out
+}
+
+func appendLine(d, rel, line string) bool {
+	f := filepath.Join(d, rel)
+	if k := lkind(f); k == "dir" || k == "symlink" {
+		return false
+	}
+	if err := os.MkdirAll(filepath.Dir(f), 0o755); err != nil {
+		return false
+	}
+	fh, err := os.OpenFile(f, os.O_APPEND|os.O_CREATE|os.O_WRONLY, 0o644)
+	if err != nil {
+		return false
+	}
+	defer fh.Close()
+	_, err = fh.WriteString(line)
+	return err == nil
+}
+
+func writeNew(d, rel, content string, old bool) bool {
+	full := filepath.Join(d, rel)
+	if k := lkind(full); k != "none" && k != "file" && k != "exec" {
+		return false
+	}
+	if err := os.MkdirAll(filepath.Dir(full), 0o755); err != nil {
+		return false // a parent is a file
+	}
+	if os.WriteFile(full, []byte(content), 0o644) != nil {
+		return false
+	}
+	if old { // clearly older than the index: not racily clean
+		if fi, err := os.Lstat(full); err == nil {
+			mt := fi.ModTime().Add(-10 * time.Second)
+			os.Chtimes(full, mt, mt)
+		}
+	}
+	return true
+}
+
+// buildScene creates scene sc in repository d. Like the ops it is total: a
+// step that cannot be carried out (a parent is a file of the base commit, git
+// refuses) is skipped and the resulting state is compared all the same.
+func buildScene(d string, sc Scene) {
+	D := scDirs[sc.Dir%len(scDirs)]
+	var tracked []string
+	for _, i := range sc.Tracked {
+		rel := D + "/" + scFiles[i%len(scFiles)]
+		if writeNew(d, rel, "t\n", true) {
+			tracked = append(tracked, rel)
+		}
+	}
+	how := sc.How % 4
+	if len(tracked) > 0 && (how == 0 || how == 3) {
+		gitx.Try(d, append([]string{"add", "--"}, tracked...)...)
+		if how == 0 {
+			gitx.Try(d, "commit", "-q", "-m", "scene")
+		}
+	}
+	rf, rl := scRule(sc.Rule, D)
+	nf := rf
+	if sc.NegFile%2 == 1 {
+		nf = ".gitignore"
+	}
+	negs := func() {
+		for _, k := range sc.Negs {
+			appendLine(d, nf, scNeg(k, D, nf)+"\n")
+		}
+	}
+	if sc.NegFirst {
+		negs()
+	}
+	appendLine(d, rf, rl+"\n")
+	if !sc.NegFirst {
+		negs()
+	}
+	if len(tracked) > 0 && (how == 1 || how == 2) {
+		gitx.Try(d, append([]string{"add", "-f", "--"}, tracked...)...)
+		if how == 2 {
+			gitx.Try(d, "commit", "-q", "-m", "scene")
+		}
+	}
+	for _, i := range sc.Untracked {
+		rel := D + "/" + scFiles[i%len(scFiles)]
+		if lkind(filepath.Join(d, rel)) == "none" {
+			writeNew(d, rel, "u\n", false)
+		}
+	}
+	for _, i := range sc.Outside {
+		rel := scOutside[i%len(scOutside)]
+		if lkind(filepath.Join(d, rel)) == "none" {
+			writeNew(d, rel, "o\n", false)
+		}
+	}
+	if at := sc.NestedAt % 3; at != 0 && len(sc.Nested) > 0 {
+		nd := D
+		if at == 2 {
+			nd = D + "/sub"
+		}
+		ok := false
+		for _, k := range sc.Nested {
+			if appendLine(d, nd+"/.gitignore", scNested[k%len(scNested)]) {
+				ok = true
+			}
+		}
+		if ok && sc.NestedTracked {
+			gitx.Try(d, "add", "-f", "--", nd+"/.gitignore")
+		}
+	}
+}
+
+// sceneLabels classifies, from git's answers alone, what the scenes reached.
+func sceneLabels(d string, c Case, want map[string]string, lab map[string]bool) {
+	for _, sc := range c.Scenes {
+		D := scDirs[sc.Dir%len(scDirs)]
+		out, _, code := gitx.Try(d, "ls-files", "-z", "--", D)
+		if code != 0 {
+			continue
+		}
+		idx := map[string]bool{}
+		for _, p := range strings.Split(out, "\x00") {
+			if p != "" {
+				idx[p] = true
+			}
+		}
+		own := "no-own-gitignore"
+		if lkind(filepath.Join(d, D, ".gitignore")) == "file" {
+			own = "own-gitignore"
+		}
+		for _, i := range sc.Untracked {
+			rel := scFiles[i%len(scFiles)]
+			p := D + "/" + rel
+			if k := lkind(filepath.Join(d, p)); (k != "file" && k != "exec") || idx[p] {
+				continue
+			}
+			named := false
+			for _, k := range sc.Negs {
+				if scNegNames(k, rel) {
+					named = true
+				}
+			}
+			depth := "sibling"
+			if strings.Contains(rel, "/") {
+				depth = "in-subdir"
+			}
+			if _, listed := want[p]; listed {
+				lab["scene:untracked-below-D-listed"] = true
+				if named {
+					lab["scene:untracked-below-D-listed,named-by-ancestor-negation"] = true
+				}
+				continue
+			}
+			lab["scene:untracked-below-D-ignored"] = true
+			if len(idx) > 0 {
+				lab["scene:ignored-untracked-in-walked-dir(tracked-inside)"] = true
+				if named {
+					lab["scene:ignored-untracked-in-walked-dir,named-by-ancestor-negation,"+own] = true
+					lab["scene:ignored-untracked-in-walked-dir,named-by-ancestor-negation,"+depth] = true
+				}
+			}
+		}
+	}
 }
 
 // Base is one file of the initial commit. Kind: 0 regular, 1 executable, 2 symlink.
@@ -63,7 +403,7 @@ var patterns = []string{"b\n", "d/\n", "*.txt\n", "!x.txt\n", "/a\n", "e\n", "*.
 var opKinds = []string{
 	"write", "write", "write", "write", "rm", "rm", "chmod+x", "chmod-x", "symlink", "mkdir", "touch", "touch", "sameSizeEdit",
 	"gitAdd", "gitAdd", "gitAddAll", "gitAddN", "gitAddN", "gitRmCached", "gitCommit", "gitResetPath", "gitChmodIndex",
-	"goAdd", "goCommit", "ignore", "ignore",
+	"goAdd", "goCommit", "ignore", "ignore", "gitAddF",
 }
 
 func gen(t *rapid.T, r *evid.Recorder) Case {
@@ -82,6 +422,11 @@ func gen(t *rapid.T, r *evid.Recorder) Case {
 			Kind: rapid.SampledFrom([]int{0, 0, 0, 1, 2}).Draw(t, "bkind"), C: rapid.IntRange(0, len(contents)-1).Draw(t, "bc")})
 	}
 	c.NoCommit = rapid.IntRange(0, 5).Draw(t, "nocommit") == 5
+	// half of the cases get one or two ignore scenes (shrinks to none)
+	ns := []int{0, 0, 1, 2}[rapid.IntRange(0, 3).Draw(t, "nscenes")]
+	for i := 0; i < ns; i++ {
+		c.Scenes = append(c.Scenes, genScene(t))
+	}
 	n := rapid.IntRange(1, 12).Draw(t, "nops")
 	for i := 0; i < n; i++ {
 		k := rapid.SampledFrom(opKinds).Draw(t, "k")
@@ -89,7 +434,12 @@ func gen(t *rapid.T, r *evid.Recorder) Case {
 		if len(c.Base) > 0 && k != "ignore" && rapid.IntRange(0, 2).Draw(t, "onbase") > 0 {
 			p = c.Base[rapid.IntRange(0, len(c.Base)-1).Draw(t, "bi")].P // mostly act on tracked paths
 		}
-		c.Ops = append(c.Ops, Op{K: k, P: p, Q: rapid.IntRange(0, 13).Draw(t, "q")})
+		o := Op{K: k, P: p, Q: rapid.IntRange(0, 13).Draw(t, "q")}
+		if ns > 0 && rapid.IntRange(0, 2).Draw(t, "onscene") == 2 {
+			o.S = true
+			o.P = rapid.IntRange(0, ns*(len(scFiles)+2)-1).Draw(t, "sp")
+		}
+		c.Ops = append(c.Ops, o)
 	}
 	// Steering around confirmed findings whose effects would combine on one path
 	// (each combination would otherwise need its own signature): while the
@@ -109,6 +459,33 @@ func gen(t *rapid.T, r *evid.Recorder) Case {
 		}
 	}
 	return c
+}
+
+func genScene(t *rapid.T) Scene {
+	idxs := func(name string, lo, hi, pool int) []int {
+		var out []int
+		for n := rapid.IntRange(lo, hi).Draw(t, "n"+name); len(out) < n; {
+			out = append(out, rapid.IntRange(0, pool-1).Draw(t, name))
+		}
+		return out
+	}
+	sc := Scene{
+		Dir:  rapid.IntRange(0, len(scDirs)-1).Draw(t, "scdir"),
+		Rule: rapid.IntRange(0, nScRules-1).Draw(t, "scrule"),
+		How:  rapid.IntRange(0, 3).Draw(t, "schow"),
+	}
+	sc.Tracked = idxs("sctracked", 0, 2, len(scFiles))
+	sc.Untracked = idxs("scuntracked", 1, 4, len(scFiles))
+	sc.NestedAt = []int{0, 0, 1, 1, 2}[rapid.IntRange(0, 4).Draw(t, "scnestedat")]
+	if sc.NestedAt != 0 {
+		sc.Nested = idxs("scnested", 1, 2, len(scNested))
+		sc.NestedTracked = rapid.IntRange(0, 3).Draw(t, "scnestedtracked") == 3
+	}
+	sc.Negs = idxs("scneg", 0, 3, nScNegs)
+	sc.NegFirst = rapid.IntRange(0, 4).Draw(t, "scnegfirst") == 4
+	sc.NegFile = rapid.IntRange(0, 1).Draw(t, "scnegfile")
+	sc.Outside = idxs("scoutside", 0, 2, len(scOutside))
+	return sc
 }
 
 const (
@@ -157,8 +534,11 @@ func lkind(p string) string {
 // apply executes one op in repository d; every op is total (a no-op when it
 // does not apply); git failures (e.g. pathspec without match) are part of the
 // history, not errors.
-func apply(d string, o Op, lab map[string]bool) {
+func apply(d string, o Op, lab map[string]bool, sp []string) {
 	p := paths[o.P%len(paths)]
+	if o.S && len(sp) > 0 {
+		p = sp[o.P%len(sp)]
+	}
 	full := filepath.Join(d, p)
 	switch o.K {
 	case "write":
@@ -228,6 +608,8 @@ func apply(d string, o Op, lab map[string]bool) {
 		}
 	case "gitAdd":
 		gitx.Try(d, "add", "-A", "--", p)
+	case "gitAddF":
+		gitx.Try(d, "add", "-f", "--", p)
 	case "gitAddAll":
 		gitx.Try(d, "add", "-A")
 	case "gitAddN":
@@ -258,6 +640,14 @@ func apply(d string, o Op, lab map[string]bool) {
 			}
 		}
 	case "ignore":
+		if o.S && len(sp) > 0 { // a nested ignore file appears (or grows) next to a scene path
+			dir := p
+			if k := lkind(full); k != "dir" {
+				dir = filepath.Dir(p)
+			}
+			appendLine(d, dir+"/.gitignore", scNested[o.Q%len(scNested)])
+			return
+		}
 		f := filepath.Join(d, ignoreFiles[o.P%len(ignoreFiles)])
 		if lkind(f) == "dir" || lkind(f) == "symlink" {
 			return
@@ -411,6 +801,15 @@ func classify(d string, c Case, p, gitXY, goXY string, idx *index.Index) string 
 				}
 			}
 		}
+		if (gitXY == "??" && goXY == "") || (gitXY == "" && goXY == "??") {
+			if mech := ignoreMechanism(d, p, goXY == ""); mech != "" {
+				dir := "untracked-path-git-lists-reported-ignored"
+				if goXY == "??" {
+					dir = "untracked-path-git-ignores-reported-Untracked"
+				}
+				return "C27/Status:ignore:" + mech + ":" + dir
+			}
+		}
 		if rule == ".git/info/exclude" && goXY == "??" {
 			return "C27/Status:untracked-path-ignored-only-by-.git/info/exclude-reported-Untracked"
 		}
@@ -465,6 +864,122 @@ func classify(d string, c Case, p, gitXY, goXY string, idx *index.Index) string 
 	return fmt.Sprintf("C27/Status:idx=%s,wt=%s%s%s:git=%s,go=%s", idxKind(e), wk, same, cfg, u(gitXY), u(goXY))
 }
 
+// Ignore-rule models. When the two sides disagree on whether an untracked path
+// is ignored, a mechanism is confirmed the way the other signatures are: the
+// worktree's .gitignore files, rewritten to say explicitly what go-git takes
+// the patterns to mean, are given to git in an empty repository; the mechanism
+// explains the disagreement when git's answer for the path with the rewritten
+// files is go-git's answer (and with the original files it is not).
+//
+// modelStars: go-git lets a pattern `X/**` match the directory X itself (for
+// git it matches only what is inside X), so `X/**` makes X an excluded
+// directory below which nothing can be re-included, and `!X/**` re-includes an
+// excluded directory X. Rewrite: `X/**` gains the line `/X/`, `!X/**` gains
+// `!/X/` (with `**/` in front when the pattern is not anchored).
+//
+// modelNegDir: go-git matches a pattern without a slash (`!name`, `!name/`)
+// against every component of the path, so a negation naming a directory
+// re-includes everything below it, whatever other pattern matches there (for
+// git the negation re-includes the directory entry only). Rewrite: `!name/`
+// and `!name` gain `!**/name/**`; an anchored `!a/b/` gains `!a/b/**`.
+const (
+	modelStars  = 1
+	modelNegDir = 2
+)
+
+func rewriteIgnore(lines []string, models int) (out []string, n int) {
+	for _, l := range lines {
+		out = append(out, l)
+		if l == "" || strings.HasPrefix(l, "#") {
+			continue
+		}
+		neg := strings.HasPrefix(l, "!")
+		body := strings.TrimPrefix(l, "!")
+		if models&modelStars != 0 && strings.HasSuffix(body, "/**") {
+			x := strings.TrimSuffix(body, "/**")
+			if x != "" && !strings.HasSuffix(x, "*") {
+				if !strings.HasPrefix(x, "/") {
+					x = "/" + x
+				}
+				if neg {
+					out = append(out, "!"+x+"/")
+				} else {
+					out = append(out, x+"/")
+				}
+				n++
+			}
+		}
+		if models&modelNegDir != 0 && neg && !strings.HasSuffix(body, "*") {
+			x := strings.TrimSuffix(body, "/")
+			switch {
+			case x == "":
+			case !strings.Contains(x, "/"):
+				out = append(out, "!**/"+x+"/**")
+				n++
+			case strings.HasSuffix(body, "/"):
+				out = append(out, "!"+x+"/**")
+				n++
+			}
+		}
+	}
+	return out, n
+}
+
+// ignoreModel answers whether git ignores p given the worktree's .gitignore
+// files rewritten for the models (0 = as they are); n = lines rewritten.
+func ignoreModel(d, p string, models int) (ignored bool, n int) {
+	m := scratch()
+	defer os.RemoveAll(m)
+	gitx.Init(m, false, "sha1")
+	filepath.Walk(d, func(f string, fi os.FileInfo, err error) error {
+		if err != nil {
+			return nil
+		}
+		rel, _ := filepath.Rel(d, f)
+		if fi.IsDir() && rel == ".git" {
+			return filepath.SkipDir
+		}
+		if fi.Name() != ".gitignore" || !fi.Mode().IsRegular() {
+			return nil
+		}
+		b, err := os.ReadFile(f)
+		if err != nil {
+			return nil
+		}
+		lines, k := rewriteIgnore(strings.Split(string(b), "\n"), models)
+		n += k
+		os.MkdirAll(filepath.Dir(filepath.Join(m, rel)), 0o755)
+		os.WriteFile(filepath.Join(m, rel), []byte(strings.Join(lines, "\n")), 0o644)
+		return nil
+	})
+	_, se, code := gitx.Try(m, "check-ignore", "-q", "--no-index", "--", p)
+	if code != 0 && code != 1 {
+		panic(fmt.Sprintf("INFRA: git check-ignore failed (%d): %s", code, se))
+	}
+	return code == 0, n
+}
+
+// ignoreMechanism names the model (if any) under which git gives go-git's
+// answer goIgnored for the untracked path p.
+func ignoreMechanism(d, p string, goIgnored bool) string {
+	if orig, _ := ignoreModel(d, p, 0); orig == goIgnored {
+		return "" // not a disagreement about ignore rules of .gitignore files
+	}
+	for _, m := range []struct {
+		models int
+		name   string
+	}{
+		{modelStars, "pattern-X/**-also-matches-directory-X-itself"},
+		{modelNegDir, "negation-naming-a-directory-re-includes-everything-below-it"},
+		{modelStars | modelNegDir, "pattern-X/**-also-matches-directory-X-itself+negation-naming-a-directory-re-includes-everything-below-it"},
+	} {
+		if got, n := ignoreModel(d, p, m.models); n > 0 && got == goIgnored {
+			return m.name
+		}
+	}
+	return ""
+}
+
 // sizeOnlyModified recognises git's one documented heuristic answer: with
 // core.autocrlf=true|input a worktree file whose size differs from the size
 // recorded in the index is reported " M" by git without comparing contents
@@ -502,6 +1017,9 @@ func compare(d string, c Case, step int, lab map[string]bool, codes map[string]b
 	want, ok := gitStatus(d)
 	if !ok {
 		return nil, false
+	}
+	if step < 0 {
+		sceneLabels(d, c, want, lab)
 	}
 	r, err := git.PlainOpen(d)
 	if err != nil {
@@ -550,8 +1068,12 @@ func compare(d string, c Case, step int, lab map[string]bool, codes map[string]b
 				continue
 			}
 			sig := classify(d, c, k, want[k], got[k], idx)
-			ds = append(ds, disc{sig, fmt.Sprintf("after step %d (%+v): path %q: git status=%q go-git Status=%q\n git:    %v\n go-git: %v",
-				step, c.Ops[step], k, want[k], got[k], want, got)})
+			what := "scenes"
+			if step >= 0 {
+				what = fmt.Sprintf("%+v", c.Ops[step])
+			}
+			ds = append(ds, disc{sig, fmt.Sprintf("after step %d (%s): path %q: git status=%q go-git Status=%q\n git:    %v\n go-git: %v",
+				step, what, k, want[k], got[k], want, got)})
 		}
 	}
 	return ds, true
@@ -570,15 +1092,15 @@ func check(c Case) evid.Result {
 	for _, b := range c.Base {
 		switch b.Kind {
 		case 2:
-			apply(d, Op{K: "symlink", P: b.P, Q: b.C}, map[string]bool{})
+			apply(d, Op{K: "symlink", P: b.P, Q: b.C}, map[string]bool{}, nil)
 		default:
-			apply(d, Op{K: "write", P: b.P, Q: b.C}, map[string]bool{})
+			apply(d, Op{K: "write", P: b.P, Q: b.C}, map[string]bool{}, nil)
 			if b.Kind == 1 {
-				apply(d, Op{K: "chmod+x", P: b.P}, map[string]bool{})
+				apply(d, Op{K: "chmod+x", P: b.P}, map[string]bool{}, nil)
 			}
 			// base files are clearly older than the index (not racily clean), whatever the
 			// timestamp granularity; files written by later ops are fresh
-			apply(d, Op{K: "touch", P: b.P, Q: 9}, map[string]bool{})
+			apply(d, Op{K: "touch", P: b.P, Q: 9}, map[string]bool{}, nil)
 		}
 	}
 	if len(c.Base) > 0 {
@@ -593,8 +1115,19 @@ func check(c Case) evid.Result {
 	var res evid.Result
 	var firstKnown *disc
 	maxCodes := 0
-	for i, o := range c.Ops {
-		apply(d, o, lab)
+	sp := scenePaths(c)
+	for _, sc := range c.Scenes {
+		buildScene(d, sc)
+	}
+	first := 0
+	if len(c.Scenes) > 0 {
+		first = -1 // step -1: the state the scenes leave is compared before any op
+		lab["scene"] = true
+	}
+	for i := first; i < len(c.Ops); i++ {
+		if i >= 0 {
+			apply(d, c.Ops[i], lab, sp)
+		}
 		stepCodes := map[string]bool{}
 		ds, ok := compare(d, c, i, lab, stepCodes)
 		if !ok {
@@ -635,8 +1168,11 @@ func check(c Case) evid.Result {
 		switch o.K {
 		case "ignore":
 			lab["ignore-file="+ignoreFiles[o.P%len(ignoreFiles)]] = true
-		case "symlink", "goAdd", "goCommit", "gitChmodIndex", "gitResetPath", "gitRmCached", "touch":
+		case "symlink", "goAdd", "goCommit", "gitChmodIndex", "gitResetPath", "gitRmCached", "touch", "gitAddF":
 			lab["op:"+o.K] = true
+		}
+		if o.S && len(sp) > 0 {
+			lab["op-on-scene-path"] = true
 		}
 	}
 	for k := range codes {
